@@ -208,9 +208,19 @@ def resolve_syntatic_sugar(a: ast.AST) -> ast.AST:
                     # We have a named tuple. Turn it into a dictionary
                     arg_names = [n for n in a.func.value._fields]
 
-                    return self.convert_call_to_dict(
-                        a, node, arg_names, dict(getattr(a.func.value, "_field_defaults", {}))
-                    )
+                    # The defaults python binds are the ones of the constructor:
+                    # `_field_defaults` does not know about `P.__new__.__defaults__ = (..)`,
+                    # the way defaults were given to a namedtuple before it had a parameter
+                    # for them.
+                    nt_defaults = dict(getattr(a.func.value, "_field_defaults", {}))
+                    try:
+                        for p in inspect.signature(a.func.value).parameters.values():
+                            if p.name in arg_names and p.default is not p.empty:
+                                nt_defaults[p.name] = p.default
+                    except (TypeError, ValueError):
+                        pass
+
+                    return self.convert_call_to_dict(a, node, arg_names, nt_defaults)
             return a
 
     return syntax_transformer().visit(a)
